@@ -244,7 +244,8 @@ def to_label(kind, x):
         return 'L%d' % x
     if kind == 'period':
         import pandas as pd
-        return pd.Period(str(x) if 1 <= x <= 9999 else '1', freq='Y')
+        # (years outside 1000..9999 are mapped to a year no span uses: such labels only ever stand for "a label that is not there")
+        return pd.Period(year=x if 1000 <= x <= 9999 else 1900 + abs(x) % 50, freq='Y')
     return int(x)
 
 
@@ -770,10 +771,25 @@ Open Scope float_scope. Open Scope Z_scope.
 '''
 
 
+def _locate(case, label):
+    """Position a label denotes for the span of this case, or None (absent; or repeated in a NumPy-array span, whose lookup wants
+    exactly one match).  A repeated label of a list span means its first period."""
+    labels = _labels(case) if 'n' in case else []
+    hits = [i for i, x in enumerate(labels) if x == label]
+    if not hits:
+        return None
+    if case.get('span_kind', 'list').startswith('array') and len(hits) != 1:
+        return None
+    return hits[0]
+
+
 def positions_of_solve(case, call):
+    """Positions solve() visits: default start / end by position (lags / leads), given labels looked up; None if a label fails."""
     n = case['n']
-    a = call['start'] - 2000 if call.get('start') is not None else case.get('lags', 0)
-    b = call['end'] - 2000 if call.get('end') is not None else n - 1 - case.get('leads', 0)
+    a = _locate(case, call['start']) if call.get('start') is not None else case.get('lags', 0)
+    b = _locate(case, call['end']) if call.get('end') is not None else n - 1 - case.get('leads', 0)
+    if a is None or b is None:
+        return None
     return list(range(a, b + 1))
 
 
@@ -990,16 +1006,16 @@ def _call_periods(case, call):
         t = call['t']
         return [t if t >= 0 else t + n] if -n <= t < n else None
     if e == 'solve_period':
-        p = call['label'] - 2000
-        return [p] if 0 <= p < n else None
+        p = _locate(case, call['label'])
+        return [p] if p is not None else None
     if e == 'trace_t':
         t = call['t']
         return [t if t >= 0 else t + n] if -n <= t < n else None
     if e == 'trace_period':
-        p = call['plabel'] - 2000
-        return [p] if 0 <= p < n else None
+        p = _locate(case, call['plabel'])
+        return [p] if p is not None else None
     ps = positions_of_solve(case, call)
-    return ps if all(0 <= p < n for p in ps) else None
+    return ps if ps is not None and all(0 <= p < n for p in ps) else None
 
 
 def _expected_labels(k, with_end):
@@ -1786,6 +1802,12 @@ def _random_case(rng, scen):
         calls.append(cl)
     elif r < 0.13:
         calls.append({'entry': 'solve_period', 'label': 1999, 'opts': _opts(), 'trace': ['flag', True]})
+    if c['span_kind'].endswith('_dup'):
+        # reindex() onto a span with a repeated label is no identity (every period of that label gets the first one's values; an array
+        # span refuses the lookup): not a history the property speaks about — continue on a copy instead
+        for cl in calls:
+            if cl['entry'] == 'reindex':
+                cl['entry'] = 'copy'
     if c.get('aliases') and tv is None:
         # An alias is read as the variable it denotes (ids), but since fix 7d04ae5 trace_t compares the name STRINGS of
         # successive calls: keep every traced call of an alias case on alias names — the class defaults (self.names) are the
